@@ -120,10 +120,23 @@ def build_tree(td: Path, rng, c):
     (td / "proj" / "case 01").mkdir()
     os.symlink("../shared/settings", td / "proj" / "case 01" / "caseDict")
     os.symlink("shared", td / "proj" / "dlink", target_is_directory=True)
+    # sources whose names are case variants of the prefix, next to an unrelated lower-case sibling
+    for nm in ("Parsed.results", "PARSED.case1.cpp"):
+        (td / "proj" / nm).write_text("a 1;\nn { p 2; }\n")
+    (td / "proj" / "parsed.results").write_text("unrelated 2;\n")
     if c.get("target_exists"):
         p = td / "proj" / c["target"]
         p.parent.mkdir(parents=True, exist_ok=True)
         p.write_text('{"old": 1}' if str(p).endswith(".json") else ("<r><old>1</old></r>" if str(p).endswith(".xml") else "old 1;\n"))
+
+
+def _keeps_source_name(source: str, prefix, derived: str) -> bool:
+    """independent reading of 'prefix applied once': apart from one leading `<prefix>.` (exact spelling) the source's name
+    without its last extension appears verbatim in the derived name"""
+    p = (prefix or "").removesuffix(".")
+    core = source[len(p) + 1:] if p and source.startswith(p + ".") else source
+    stem = core.rsplit(".", 1)[0] if "." in core.strip(".") else core
+    return stem in derived
 
 
 class _Unserialisable:
@@ -215,6 +228,8 @@ def process(ctx: Ctx, cases: list[dict]) -> None:
                         ctx.violation("a failing parse changed the file system", c, ch, "nothing")
                     continue
                 name = create_target_file_name(proj / c["file"], prefix="parsed", scope=opts.get("scope"), output=opts.get("output")).name
+                if not _keeps_source_name(Path(c["file"]).name, "parsed", name):
+                    ctx.violation("target name does not contain the source's own name (prefix applied once, nothing else removed)", c, name, c["file"])
                 exp_target = os.path.relpath(Path(os.path.realpath((proj / c["file"]).parent)) / name, td)
                 if ch != [exp_target]:
                     ctx.violation("parse did not create/replace exactly the derived target file", c, ch, [exp_target])
@@ -241,6 +256,8 @@ def process(ctx: Ctx, cases: list[dict]) -> None:
                 name = create_target_file_name(Path("/x") / c["name"], prefix=c.get("prefix"), scope=c.get("scope"), output=c.get("output")).name
                 if c.get("prefix") and not name.startswith(c["prefix"].removesuffix(".") + "."):
                     ctx.violation("target name does not carry the prefix", c, name, c["prefix"])
+                if not _keeps_source_name(c["name"], c.get("prefix"), name):
+                    ctx.violation("target name does not contain the source's own name (prefix applied once, nothing else removed)", c, name, c["name"])
                 if not ctx.oracle_only:
                     m = ctx.driver([{"op": "targetname", "name": c["name"], "prefix": c.get("prefix"), "scope": [str(x) for x in (c.get("scope") or [])],
                                      "output": c.get("output")}])[0]
@@ -276,7 +293,7 @@ def run(ctx: Ctx) -> None:
         ctx.exhaustive.append("every option combination of DictParser.parse (includes x mode x order x comments x scope x output)")
     for inc, mode, order, comments, scope, output in combos:
         cases.append({"kind": "parse", "file": "src", "opts": {"includes": inc, "mode": mode, "order": order, "comments": comments, "scope": scope, "output": output}})
-    for file in ("case 01/caseDict", "dlink/settings", "sub/inc"):
+    for file in ("case 01/caseDict", "dlink/settings", "sub/inc", "Parsed.results", "PARSED.case1.cpp"):
         for inc, mode, order, comments, scope, output in rng.sample(combos, 4) + [(True, "w", False, True, None, None)]:
             cases.append({"kind": "parse", "file": file, "opts": {"includes": inc, "mode": mode, "order": order, "comments": comments, "scope": scope, "output": output}})
     for _ in range(ctx.n(60, 800)):
@@ -285,7 +302,9 @@ def run(ctx: Ctx) -> None:
             d["solver"] = {"_attributes": {"a": 1}, "tol": 1, "inner": {"_cache": [1, 2], "lst": [{"_tmp": 1, "keep": 2}]}}
         cases.append({"kind": "tostring", "d": enc(d)})
     for _ in range(ctx.n(300, 5000)):
-        nm = rng.choice(["foo", "foo.cpp", "parsed.foo", "parsed", "a.b.c", ".hidden", "x.", "parsedXfoo", "my file.dict", gen.word(rng) + rng.choice(["", ".x", ".json"])])
+        nm = rng.choice(["foo", "foo.cpp", "parsed.foo", "parsed", "a.b.c", ".hidden", "x.", "parsedXfoo", "my file.dict", gen.word(rng) + rng.choice(["", ".x", ".json"]),
+                         "Parsed.results", "PARSED.case1.cpp", "Parsed.case2.cpp", "pArSeD.x", "Parsed", "PARSED.", "parsed.parsed.foo", "parsed.Parsed.foo", "PRE.a", "Pre.a.b",
+                         "A.B.c", "parsedfoo.bar", "foo.parsed", "ſparsed.x", "parsed.foo.JSON", "foo.Json", "foo.CPP"])
         cases.append({"kind": "name", "name": nm, "prefix": rng.choice(["parsed", "parsed.", None, "pre", "a.b"]),
                       "scope": rng.choice([None, ["a"], ["a", 1], []]), "output": rng.choice([None, "cpp", "foam", "json", "xml", "weird", ""])})
     process(ctx, cases)
